@@ -77,7 +77,11 @@ func synthArgs(r *R, mt reflect.Type, name string, isObj bool, variant int) []re
 		case t == objIface:
 			args = append(args, reflect.ValueOf(at.NewObject("q", 9)).Convert(objIface))
 		case t.Kind() == reflect.Int:
-			args = append(args, reflect.ValueOf(variant%2)) // a valid index: 0 or 1 (lists hold 4 elements)
+			idx := variant % 2 // a valid index: 0 or 1 (lists hold 4 elements)
+			if name == "Insert" && variant%3 == 2 {
+				idx = 4 // Insert at the append position (index == Count)
+			}
+			args = append(args, reflect.ValueOf(idx))
 		case t.Kind() == reflect.String:
 			s := "a"
 			if name == "SetTF" || name == "UnsetTF" || name == "GetTF" || name == "TypeOfTF" {
@@ -182,7 +186,7 @@ func genC19(r *R, n int, tier string, out *Out) {
 						Desc:       map[string]any{"receiver": fmt.Sprintf("%T", outer), "method": name, "returned": fmt.Sprintf("%T", ret), "returned_outer": isOuter, "variant": variant},
 						Pred:       f.pred, PredMsg: f.msg,
 						Nontrivial: true,
-						Key:        fmt.Sprintf("%v/%d/%s/%d", tg.isObj, tg.level, name, variant%2),
+						Key:        fmt.Sprintf("%v/%d/%s/%d", tg.isObj, tg.level, name, variant%6),
 						Tags:       []string{name, fmt.Sprintf("level=%d", tg.level)},
 					})
 					emitted++
